@@ -258,6 +258,7 @@ SPECS = {
     "C18": dict(
         module="SpawnArgv.tla", runner="spawn", cmp=cmp_c18, nontrivial=lambda c: len(c["argv"]) >= 1,
         cfgs=dict(quick=["SpawnArgv.cfg"], thorough=["SpawnArgv.cfg"]), quick_cap=1500,
+        always=lambda c: c.get("via", "start") != "start",
         rule="commands with at least one argument; distinct by (command shape, spawn option); tokens are bound to one of six families of awkward strings per case (empty, spaces and tabs, quotes, $ ` $( ), glob characters, newline, backslash, shell operators, multi-byte text, option look-alikes)",
         exhaustive=True,
         assumptions=["SpawnArgv.tla: argument vectors of up to 3 tokens, shells with up to 2 options, with / without a program option, up to 2 extra arguments, three spawn options",
@@ -389,7 +390,9 @@ def run(prop, tier, replay=None):
     rng = random.Random(vlib.seed())
     total_universe = len(cases)
     if tier == "quick" and cap and len(cases) > cap:
-        cases = rng.sample(cases, cap)
+        keep = [c for c in cases if spec.get("always", lambda c: False)(c)]
+        rest = [c for c in cases if not spec.get("always", lambda c: False)(c)]
+        cases = keep + rng.sample(rest, max(0, min(len(rest), cap - len(keep))))
     for i, c in enumerate(cases):
         c["case"] = i
     cp, rp = os.path.join(wd, "cases.ndjson"), os.path.join(wd, "results.ndjson")
